@@ -146,15 +146,25 @@ Definition scope_field_ok (descs : list ddesc) (ctx df : option N) : bool :=
     end
   end.
 
-Fixpoint scope_ok (descs : list ddesc) (ctx : option N) (n : dnode) : bool :=
+Definition opt_N_eqb (a b : option N) : bool :=
+  match a, b with
+  | None, None => true
+  | Some x, Some y => x =? y
+  | _, _ => false
+  end.
+
+(* [frozen]: inside the items of a list of lists no field may open or join another defer (the
+   pass-through seek of the renderer does not enter nested lists: fieldNodeKindAllowsSeek) *)
+Fixpoint scope_ok (descs : list ddesc) (ctx : option N) (frozen : bool) (n : dnode) : bool :=
   match n with
   | DLeaf l => is_leaf_node l
-  | DArr _ _ item => scope_ok descs ctx item
+  | DArr _ _ item => scope_ok descs ctx (frozen || match item with DArr _ _ _ => true | _ => false end) item
   | DObj _ _ _ _ fields =>
     (fix go (fs : list dfield) : bool :=
        match fs with
        | [] => true
-       | DFld _ _ _ df v :: r => scope_field_ok descs ctx df && scope_ok descs df v && go r
+       | DFld _ _ _ df v :: r =>
+         (if frozen then opt_N_eqb df ctx else scope_field_ok descs ctx df) && scope_ok descs df frozen v && go r
        end) fields
   end.
 
@@ -209,7 +219,7 @@ Definition root_ok (root : dnode) : bool :=
 
 Definition defer_plan_wf (descs : list ddesc) (root : dnode) (tree : option dtree) : bool :=
   descs_wf descs && shape_ok descs tree && group_ids_nodup tree &&
-  root_ok root && scope_ok descs None root && paths_ok descs [] None root.
+  root_ok root && scope_ok descs None false root && paths_ok descs [] None root.
 
 (* ---------------------------------------------------------------- 3. reconstruction *)
 (* JSON trees up to the order of object members (the merge appends deferred members after the
